@@ -933,6 +933,7 @@ class Interp:
             raise Unsupported(f"inlining depth exceeded at {qualname}")
         locals_ = self.bind(fn_node, module, args, kwargs, self_val)
         fr = Frame(module, locals_, qualname, cls)
+        fr.local_names = _function_locals(fn_node)
         self.depth += 1
         try:
             self.exec_block(fn_node.body, fr)
@@ -1186,7 +1187,12 @@ class Interp:
         target_names = _assigned_names([ast.Assign(targets=[st.target], value=ast.Constant(None))])
         missing = (assigned - target_names) - set(spec.havoc) - {n for n in assigned if n not in fr.locals}
         self._loop_check(f"{fr.qualname} loop invariant holds on entry", spec.inv(self, fr.locals, E))
-        # three continuations, chosen non-deterministically: (a) exit after exhaustion, (b) one generic iteration
+        # continuations, chosen non-deterministically: (z) the sequence is empty: nothing happens, the state is the entry
+        # state (variables first bound inside the body stay unbound); (a) exit after >= 1 iterations; (b) one generic iteration
+        if self.branch(z3.Length(seq.base) == 0):
+            self.loop_index = None
+            self.exec_block(st.orelse, fr)
+            return
         which = 0 if self.branch_free() else 1
         for name in sorted(missing):
             fr.locals[name] = self._auto_havoc(name, fr.locals[name])
@@ -1580,6 +1586,9 @@ class Interp:
             if isinstance(v, _Poison):
                 raise Unsupported(f"use of {n} after a generically executed loop")
             return v
+        if n in getattr(fr, "local_names", ()):
+            # python scoping: a name the function assigns somewhere is local everywhere in it; read before any assignment
+            self.raise_(UnboundLocalError, f"cannot access local variable '{n}' where it is not associated with a value")
         g = fr.module.__dict__
         if n in g:
             return g[n]
@@ -2391,6 +2400,35 @@ class _Poison:
 
     def __repr__(self):
         return f"<poison {self.name}>"
+
+
+def _function_locals(fn):
+    """names that are local to the function by python's scoping rule (assigned in its own body, not in nested scopes)"""
+    out, skip = set(), set()
+
+    def walk(node):
+        for ch in ast.iter_child_nodes(node):
+            if isinstance(ch, (ast.FunctionDef, ast.AsyncFunctionDef, ast.ClassDef)):
+                out.add(ch.name)
+                continue
+            if isinstance(ch, (ast.Lambda, ast.ListComp, ast.SetComp, ast.DictComp, ast.GeneratorExp)):
+                continue
+            if isinstance(ch, (ast.Global, ast.Nonlocal)):
+                skip.update(ch.names)
+            if isinstance(ch, ast.Name) and isinstance(ch.ctx, (ast.Store, ast.Del)):
+                out.add(ch.id)
+            if isinstance(ch, (ast.Import, ast.ImportFrom)):
+                for a in ch.names:
+                    out.add((a.asname or a.name).split(".")[0])
+            if isinstance(ch, ast.ExceptHandler) and ch.name:
+                out.add(ch.name)
+            walk(ch)
+    for st in fn.body:
+        walk(ast.Module(body=[st], type_ignores=[]))
+    a = fn.args
+    params = {p.arg for p in a.posonlyargs + a.args + a.kwonlyargs} | ({a.vararg.arg} if a.vararg else set()) | \
+        ({a.kwarg.arg} if a.kwarg else set())
+    return (out - skip) - params
 
 
 def _assigned_names(stmts):
